@@ -175,6 +175,9 @@ HARNESSES = [
       fns=['yaml::chunker::parser::Parser::read_handler'], timeout=600, min_covers=4),
     H('U-PRS', 'parser', 'read_handler_contract_big', 'bounded-size', ['C17', 'C12'], tier='thorough', bounds='libyaml buffer <= 8 B (+2 canary bytes)',
       fns=['yaml::chunker::parser::Parser::read_handler'], timeout=1200, min_covers=4),
+    H('U-PRS', 'parser', 'located_error_from_parts_contract', 'complete', ['C11', 'C04'], bounds='every mark (index, line, column) and every override offset',
+      fns=['yaml::chunker::parser::LocatedError::from_parts'], timeout=300, min_covers=2,
+      assumes=['libyaml line / column counters < u64::MAX']),
     H('U-PRS', 'parser', 'read_handler_null_arguments', 'complete', ['C17'], bounds='each of the three pointer arguments null',
       fns=['yaml::chunker::parser::Parser::read_handler'], timeout=300),
     H('U-PRS', 'parser', 'event_drop_releases_every_event_type', 'complete', ['C17', 'C05'], bounds='all 11 libyaml event types',
